@@ -37,7 +37,7 @@ META = {
     'components_stub': ['clock (virtual, advanced by the workload)', 'S3 bucket', 'service and environment'],
     'budgets': {'quick': {'seconds': 30}, 'thorough': {'seconds': 480}},
     'required_probes': {'thorough': ['interrupt_inside_body', 'interrupt_after_outputs', 'exception_after_outputs', 'class_level_operation',
-                                     'extractor_failed', 'lookup_separated_incomplete']},
+                                     'extractor_failed', 'lookup_separated_incomplete', 'earlier_run_of_same_operation']},
 }
 
 
@@ -99,8 +99,21 @@ def _run(tape, clock):
         recorder = TapeRecorder(cas)
         # patch sleep steps into the interpreter through the environment clock
         R.Interp.clock = clock
+        service = None
+        earlier = None
+        if tape.draw(2) == 1:
+            # an earlier run of the very same decorated operation, with another outcome and other extracted metadata
+            run.probe('earlier_run_of_same_operation')
+            keep = (spec.body, spec.op.extractor, spec.user_metadata)
+            spec.body = tape.choice([[], [['raise', R.D.ErrA]], [['interrupt']]])
+            spec.op.extractor = 'ok' if keep[1] is not None else None     # the decorator is given an extractor or not once
+            spec.user_metadata = {'earlier_only': 'x', 'n': 99}
+            first = R.record_once(spec, run, cas, recorder=recorder)
+            service = first.svc
+            earlier = first
+            spec.body, spec.op.extractor, spec.user_metadata = keep
         t0 = clock.now
-        rec = R.record_once(spec, run, cas, recorder=recorder)
+        rec = R.record_once(spec, run, cas, recorder=recorder, service=service)
         t1 = clock.now
         body_time = rec.svc.slept
         run.say('operation: %r saved=%s wall=%.4f slept=%.4f' % (rec.outcome, rec.saved, t1 - t0, body_time))
@@ -164,6 +177,8 @@ def _run(tape, clock):
             intr = companion(run, spec, recorder, cas, True)
             ids = set(find_matching_recording_ids(TapeRecorder(cas2), spec.op.name, RecordingLookupProperties(None)))
             expect = set([comp]) | (set([rec.rec_id]) if kind != 'interrupt' else set())
+            if earlier is not None and earlier.saved and earlier.outcome.kind != 'interrupt':
+                expect.add(earlier.rec_id)
             if ids != expect:
                 run.violate('default_lookup_returns_complete_ones', 'lookup-%s' % ('includes-incomplete' if (ids - expect) else 'misses-complete'),
                             'default lookup returned %s, complete recordings are %s (interrupted companion %s)' % (sorted(ids), sorted(expect), intr))
